@@ -486,7 +486,7 @@ class TLSConnection(TLSRecordLayer):
         if not settings:
             settings = HandshakeSettings()
         settings = settings.validate()
-        self.sock.padding_cb = settings.padding_cb
+        self._recordLayer.padding_cb = settings.padding_cb
 
         if clientCertChain:
             if not isinstance(clientCertChain, X509CertChain):
@@ -2394,6 +2394,7 @@ class TLSConnection(TLSRecordLayer):
         if not settings:
             settings = HandshakeSettings()
         settings = settings.validate()
+        self._recordLayer.padding_cb = settings.padding_cb
 
         if (not verifierDB) and (not cert_chain) and not anon and \
                 not settings.pskConfigs and not settings.virtual_hosts:
